@@ -4,7 +4,7 @@ from ..absint import *
 
 LEVEL = 'proof'
 
-MON = 'vector_extensions::Monotonic'
+MON = 'Monotonic'
 RELS = ('lt', 'eq', 'gt', 'un')
 
 
@@ -153,7 +153,7 @@ def analyse(chk, lib, set_text=True):
                       "a = w[0], b = w[1]; the final map_or_else/finish maps every reachable end state to the class")
     chk.assumptions += ["ndarray::ArrayBase::windows(2).into_iter() yields the consecutive pairs in index order",
                         "PartialOrd/PartialEq of the element type are consistent (exactly one of <,=,> or unordered holds)"]
-    anchor_path = '<ndarray::ArrayBase as vector_extensions::VectorExtensions>::monotonic_prop'
+    anchor_path = '<ndarray::ArrayBase as VectorExtensions>::monotonic_prop'
     body = anchor(chk, lib, anchor_path, 'R12.2')
     if body is None:
         return
